@@ -540,14 +540,16 @@ def cache_session(args):
                 if (outdir, "<out_%s>" % a["out"]) not in dirs:
                     dirs.append((outdir, "<out_%s>" % a["out"]))
             sched = step.get("sched") or args.get("sched")
-            r = simrun.sim_multi(actors, rundir, home, sched=sched, mtimes=mtimes, dirs=dirs, on_event=on_event)
+            r = simrun.sim_multi(actors, rundir, home, sched=sched, mtimes=mtimes, dirs=dirs, on_event=on_event,
+                                 fault=step.get("fault"))
             clock[0] = max([clock[0]] + [int(v) for v in mtimes.values()]) + 1
             traces.append(r["trace"])
             all_picks.append(r["picks"])
             for k, v in r["probes"].items():
                 probes[k] = probes.get(k, 0) + v
             out["events"] += r["events"]
-            sres = {"actors": [], "harness_error": r["harness_error"]}
+            sres = {"actors": [], "harness_error": r["harness_error"],
+                    "killed": [e for e in r["trace"] if e[0] == "kill_actor"]}
             for ai, (a, truth, paths, outdir, o, prefixes) in enumerate(meta):
                 chroms = [c for c, _ in truth["chroms"]]
                 files, residue = outputs.collect(outdir, chroms)
@@ -604,6 +606,8 @@ def cache_session(args):
             bad = []
             if os.path.isdir(cfgdir):
                 for fn in sorted(os.listdir(cfgdir)):
+                    if not fn.endswith(".json"):
+                        continue        # temporary files of a writer (left behind when it is killed) are not cache files
                     try:
                         with open(os.path.join(cfgdir, fn)) as f:
                             json.load(f)
@@ -907,6 +911,8 @@ def cache_functions(args):
         bad = []
         if os.path.isdir(cfg):
             for fn in sorted(os.listdir(cfg)):
+                if not fn.endswith(".json"):
+                    continue
                 try:
                     with open(os.path.join(cfg, fn)) as f:
                         _json.load(f)
